@@ -1,7 +1,7 @@
 (* C06 — MRS isomorphism is exact and renaming-invariant; bag comparison partitions. *)
 From Coq Require Import List NArith ZArith Bool.
 From PyD Require Import Base.Str Model.Hier Model.Mrs Model.Iso Proofs.IsoP.
-From PyD Require Import Proofs.IsoComplete.
+From PyD Require Import Proofs.IsoComplete Proofs.IsoSound Proofs.IsoClosure Proofs.IsoExact.
 Import ListNotations.
 
 (* comparing two bags returns counts that partition both bags, for any matcher *)
@@ -63,3 +63,55 @@ Print Assumptions C06_vf2_reflexive.
 Theorem C06_vf2_complete_nonvacuous : giso ex_g1 ex_g2 ex_swap ex_swap /\ wf_graph ex_g1 /\ wf_graph ex_g2.
 Proof. exact ex_giso. Qed.
 Print Assumptions C06_vf2_complete_nonvacuous.
+
+(* what a mapping returned by the search guarantees (partial soundness, stronger form): it
+   is one-to-one in both directions and covers the second graph; every pair has equal node
+   labels (predicate, constant and, when requested, properties), equal self-loop data and
+   equal degree; and for ANY two of its pairs the edge from the pair added later to the pair
+   added earlier carries the same data in both graphs - present in both or absent in both.
+   (vf2 runs this search on the graphs closed under inverse edges, so every adjacency of
+   the MRS graph is compared in one of its two directions.  Not proved: the decoding of
+   that closure back to the two directed edges of the MRS graph, which is why exactness on
+   the un-augmented structure stays with the exhaustive-bijection oracle.) *)
+Theorem C06_vf2_sound_partial : forall g1 g2 r,
+  search (S (length g2)) g1 g2 [] = Some r ->
+  NoDup (map fst r) /\ NoDup (map snd r) /\ (length g2 <= length r)%nat /\
+  (forall n m, In (n, m) r ->
+     node_lbl g1 n = node_lbl g2 m /\
+     ed_get (Some n) (g_get g1 n) = ed_get (Some m) (g_get g2 m) /\
+     length (g_get g1 n) = length (g_get g2 m)) /\
+  (forall later n m earlier n' m', r = later ++ (n, m) :: earlier -> In (n', m') earlier ->
+     ed_get (Some n') (g_get g1 n) = ed_get (Some m') (g_get g2 m)).
+Proof. exact search_sound. Qed.
+Print Assumptions C06_vf2_sound_partial.
+
+(* soundness of the VF2 search at the level of the isographs themselves.  vf2 runs the
+   search on the two isographs closed under inverse edges (inv_map).  If both isographs are
+   well formed (unique keys, edge targets are nodes) and their edge data are clean (no
+   data string starts with two dashes or contains blank-dash-dash: the two marks the closure
+   itself adds), every mapping the search returns is one-to-one in both directions, covers
+   the second graph, pairs nodes with equal labels (predicate, constant and, when requested,
+   properties) and, for ANY two of its pairs, the directed edge between them carries the same
+   data in both isographs or is absent in both: a changed predicate, argument, constant,
+   constraint or property is never reported as isomorphic.  Both hypotheses are decidable
+   and are evaluated on every structure of the correspondence run. *)
+Theorem C06_vf2_sound : forall g1 g2 r,
+  wf_graphb g1 = true -> wf_graphb g2 = true -> clean_graphb g1 = true -> clean_graphb g2 = true ->
+  search (S (length (inv_map g2))) (inv_map g1) (inv_map g2) [] = Some r ->
+  NoDup (map fst r) /\ NoDup (map snd r) /\ (length (inv_map g2) <= length r)%nat /\
+  (forall n m, In (n, m) r -> node_lbl g1 n = node_lbl g2 m) /\
+  (forall n m n' m', In (n, m) r -> In (n', m') r -> lk g1 n (Some n') = lk g2 m (Some m')).
+Proof. exact vf2_exact_b. Qed.
+Print Assumptions C06_vf2_sound.
+
+(* the closure by look-ups: the closed edge a -> b is made of the directed edges a -> b and b -> a *)
+Theorem C06_closure_edges : forall g a b, wf_graph g -> a <> b ->
+  lk (inv_map g) a (Some b) = F (lk g a (Some b)) (lk g b (Some a)).
+Proof. exact inv_map_F. Qed.
+Print Assumptions C06_closure_edges.
+
+Theorem C06_vf2_sound_nonvacuous :
+  wf_graphb xg1 = true /\ wf_graphb xg2 = true /\ clean_graphb xg1 = true /\ clean_graphb xg2 = true /\
+  search (S (length (inv_map xg2))) (inv_map xg1) (inv_map xg2) [] = Some [(xc, xc); (xa, xb); (xb, xa)].
+Proof. exact vf2_exact_example. Qed.
+Print Assumptions C06_vf2_sound_nonvacuous.
